@@ -7,9 +7,18 @@ package keyid
 //vsym:model encoding/json.Marshal t05Marshal
 //vsym:model encoding/json.Unmarshal t05Unmarshal
 //vsym:replay same-harness
-//vsym:expect-cover C05.text.second-ok
-//vsym:bound H19_keyid_decoding_is_a_function_of_the_text: the KeyID the type is derived from depends on the KeyID text alone: decode, overwrite the caller's copy, decode again (bounds of C05's H05_text_twice)
+//vsym:expect-cover C05.text.second-ok C05.text.ok C05.text.roundtrip
+//vsym:bound H19_keyid_decoding_is_a_function_of_the_text: the KeyID the type is derived from depends on the KeyID text alone: decode, overwrite the caller's copy, decode again (bounds of C05's H05_text_twice, H05_text_decode and H05_text_roundtrip)
 //vsym:assume encoding/json is modelled by its contract on genuine JSON text (see C05)
 
 // The type, label and suffix are functions of the decoded KeyID; shared with C05.
-func H19_keyid_decoding_is_a_function_of_the_text() { H05_text_twice() }
+func H19_keyid_decoding_is_a_function_of_the_text() {
+	switch vChoose(3, "part") {
+	case 0:
+		H05_text_twice()
+	case 1:
+		H05_text_decode()
+	case 2:
+		H05_text_roundtrip() // every KeyID the encoder produces (also one without principals) decodes
+	}
+}
